@@ -357,12 +357,11 @@ def nyctUpdateDesc (t : TripDesc) : TripDesc × Option VehDesc × Bool :=
       | none => t1
     (t2, veh, assigned)
 
+def swapLast (d : UInt8) : UInt8 := if d == 78 then 83 else if d == 83 then 78 else d
+
 def swapNS (stop : Str) : Str :=
   match stop with
-  | [a, b, c, d] =>
-    if Gen.NyctTables.buggyStationIDs.contains [a, b, c] then
-      if d == 78 then [a, b, c, 83] else if d == 83 then [a, b, c, 78] else stop
-    else stop
+  | [a, b, c, d] => if Gen.NyctTables.buggyStationIDs.contains [a, b, c] then [a, b, c, swapLast d] else stop
   | _ => stop
 
 def fixStu (s : StuMsg) : StuMsg :=
